@@ -567,6 +567,17 @@ func (g *Gen) property(sc *scope, depth int, inOneof bool) *Property {
 				g.Stats["optional_"+container]++
 			}
 		}
+	} else {
+		// an option of a oneof may be marked required, or optional (which says nothing: fix a0446fc,
+		// no proto3_optional on a member of the wrapper's oneof)
+		switch k := g.R.Intn(100); {
+		case k < 6:
+			p.Required = true
+			g.Stats["oneof_option_required"]++
+		case k < 16:
+			p.Optional = true
+			g.Stats["oneof_option_optional"]++
+		}
 	}
 	p.Desc = g.description(20)
 	return p
